@@ -172,7 +172,8 @@ World *build_hostile_srv(const J &plan)
 	w->plan = plan;
 	w->build_common();
 	if (w->cfg.has("models")) { Models *ms = new Models(); ms->w = w; w->models = ms; for (auto &m : w->cfg["models"].a) ms->add(m.gets("name"), m); }
-	if (!w->models) w->add(mk_c01_integrity(w));      // an insider is a legitimate sender: what it makes the server write is its own
+	if (!w->models && !w->cfg.getb("no_check_ip")) w->add(mk_c01_integrity(w));      // an insider is a legitimate sender: what it makes the server write is its own; with -c anybody who names a logged-in user is
+	                                                                                   // accepted as that user by design
 	// with a second (late) client the C02 monitor watches only client 0 (it requires clients.size()==1): use a view
 	w->add(mk_c02_delivery(w, false, true));
 	w->add(mk_c14_ledger(w, false));
